@@ -269,6 +269,11 @@ fn c04_rollback_is_seq_guarded() {
 		if pre.present[j] && !post.present[j] {
 			removed = true;
 		}
+		// ... and it removes EVERY entry it owns, whatever else the batch contains (a stamp left behind
+		// by a failed commit makes later writers of that key conflict with a commit that never happened)
+		if sel[j] && pre.present[j] && pre.stamp[j] == my_seq {
+			assert!(!post.present[j], "rollback left a stamp of the failed commit behind");
+		}
 		if post.present[j] {
 			assert!(post.stamp[j] >= post.kept_since);
 		}
